@@ -172,6 +172,11 @@ func runByz(e *Env) {
 		for i := 0; i < n; i++ {
 			cols = append(cols, wireCol{name: fmt.Sprintf("col%d", i), t: genCellType(tp, proto, true)})
 		}
+		if proto >= 3 && !e.NoFaults && tp.Chance(1, 40) {
+			// a type description no server would send: a tuple without elements
+			cols[tp.Next(len(cols))].t = wType{ID: cqlspec.TTuple}
+			k.Fault("byz.empty-tuple-type")
+		}
 		return cols
 	}
 	rowsResp := func(cols []wireCol, noMeta bool, more []byte) *cqlspec.Response {
@@ -248,8 +253,20 @@ func runByz(e *Env) {
 			id := []byte("id:" + tok)
 			prepCols[string(id)] = cols
 			pm := &cqlspec.PreparedMeta{GlobalSpec: true, Columns: []cqlspec.ColSpec{{Keyspace: "ks", Table: "t", Name: "c0", Type: cqlspec.ColType{ID: cqlspec.TVarchar}}}}
+			if tp.Chance(1, 4) {
+				// other bind layouts: several columns, tuple columns
+				pm.Columns = nil
+				for i := 1 + tp.Next(3); i > 0; i-- {
+					pm.Columns = append(pm.Columns, cqlspec.ColSpec{Keyspace: "ks", Table: "t", Name: fmt.Sprintf("c%d", i), Type: genCellType(tp, proto, true).col()})
+				}
+				k.Fault("byz.varied-bind-metadata")
+			}
 			if proto >= 4 {
 				pm.PKIndices = []uint16{0}
+				if tp.Chance(1, 8) {
+					pm.PKIndices = []uint16{uint16(tp.Next(4)), uint16(tp.Next(300))}
+					k.Fault("byz.odd-pk-indexes")
+				}
 			}
 			r := wireResp{cols: cols, global: true}
 			cl.Send(sc, rec, &cqlspec.Response{Op: cqlspec.OpResult, Kind: cqlspec.KindPrepared, PreparedID: id, Prepared: pm, PreparedRows: wireRowsMeta(&r, false)}, node.Auto, "PREPARED "+tok)
@@ -358,7 +375,7 @@ func runByz(e *Env) {
 		kinds := make([]int, nOps)
 		cons := make([]int, nOps)
 		for i := range kinds {
-			kinds[i] = tp.Weighted([]int{4, 4, 1, 2, 2})
+			kinds[i] = tp.Weighted([]int{4, 4, 1, 2, 2, 2})
 			if kinds[i] == 4 && (ti != 0 || !ctrl) {
 				// schema lookups hold a driver mutex across their queries: one caller only
 				kinds[i] = 0
@@ -381,7 +398,28 @@ func runByz(e *Env) {
 					case 0:
 						byzConsume(sess.Query("ECHO '"+token+"'").WithContext(ctx).Iter(), cons[oi])
 					case 1:
-						byzConsume(sess.Query("SELECT * FROM ks.t /*"+token+"*/ WHERE c0 = ?", token).WithContext(ctx).Iter(), cons[oi])
+						q := sess.Query("SELECT * FROM ks.t /*"+token+"*/ WHERE c0 = ?", token).WithContext(ctx)
+						if proto >= 4 && cons[oi]%2 == 0 {
+							// what a token-aware policy does first: routing key from the
+							// partition-key indexes of the PREPARED result
+							_, _ = q.GetRoutingKey()
+						}
+						byzConsume(q.Iter(), cons[oi])
+					case 5:
+						// a caller that sizes its values from the bind metadata it is given
+						// (one value per column, one per element of a tuple column)
+						q := sess.Bind("SELECT * FROM ks.t /*"+token+"*/ WHERE c0 = ?", func(qi *gocql.QueryInfo) ([]interface{}, error) {
+							n := 0
+							for _, a := range qi.Args {
+								if tt, ok := a.TypeInfo.(gocql.TupleTypeInfo); ok {
+									n += len(tt.Elems)
+								} else {
+									n++
+								}
+							}
+							return make([]interface{}, n), nil
+						}).WithContext(ctx)
+						byzConsume(q.Iter(), cons[oi])
 					case 2:
 						b := sess.NewBatch(gocql.LoggedBatch).WithContext(ctx)
 						b.Query("INSERT /*" + token + "*/ INTO ks.t (a) VALUES (1)")
